@@ -1,5 +1,6 @@
 """kernel jptr: jsonpointer::detail::resolve<Json> (const and mutable overloads) on a model Json, jsonpointer::escape.  Serves C14 (K14.2, K14.3)."""
 ASSUMPTIONS = ['jptr/h_resolve_*: token length concrete per job (0..5 quick, ..7 thorough; plus 20/21-digit jobs for the size_t boundary in thorough), array size any uint64, model Json records element/member accesses']
+TRAP = r'_M_realloc_insert'
 STUB_NOTES = ['model Json (MJ): is_array/is_object from a symbolic kind, size() symbolic, at(index)/at(key)/try_emplace record their argument; contains() returns a symbolic flag']
 def jobs(tier):
     J = []
@@ -9,4 +10,7 @@ def jobs(tier):
             J.append(dict(id='%s_n%d' % (h[2:], n), harness=h, props=['C14'], unwind=max(n, 21) + 3, defs=dict(N=n), timeout=600, desc='detail::resolve: RFC 6901 array-index syntax (no leading zeros), "-", index < size, exact key; errors leave the target untouched', bound='all tokens of length %d, any array size, any kind' % n))
     for n in [1, 2, 3, 4] + ([5, 6] if tier == 'thorough' else []):
         J.append(dict(id='escape_n%d' % n, harness='h_escape', props=['C14'], unwind=n + 3, defs=dict(N=n), timeout=300, desc='jsonpointer::escape: ~ -> ~0, / -> ~1, inverse of RFC 6901 un-escaping', bound='all strings of length %d' % n))
+    for w, wn in ((0, 'add'), (1, 'add_if_absent'), (2, 'replace'), (3, 'remove')):
+        for n in [0, 1, 2, 3] + ([4, 5, 20] if tier == 'thorough' else []):
+            J.append(dict(id='edit_%s_n%d' % (wn, n), harness='h_edit', props=['C14'], unwind=max(n, 21) + 3, defs=dict(N=n, WHICH=w), timeout=600, mem_gb=6, desc='jsonpointer::%s through a one-token pointer: exactly the addressed edit (insert/append/assign/erase at the index, member by exact name) or an error with nothing modified' % wn, bound='all tokens of length %d, any array size, array/object/scalar target' % n))
     return J
